@@ -43,6 +43,11 @@ def operand(kind, k):
         return ("bin", "+", ("fn", "INT", [("bin", "/", ("var", "C"), X.num(2))]), X.num(k))
     if kind == "dev":
         return ("bin", "+", ("fn", "BUTTON", [X.num(k)]), X.num(20 + k))
+    if kind == "same":
+        # textually identical impure call in every position: each occurrence must be evaluated on its own
+        return ("fn", "BUTTON", [X.num(0)])
+    if kind == "rnd":
+        return ("fn", "INT", [("bin", "*", ("fn", "RND", [X.num(0)]), X.num(3))])
     if kind == "par":
         return ("par", ("bin", "-", ("var", "C"), X.num(k)))
     if kind == "neg":
@@ -54,7 +59,7 @@ def operand(kind, k):
 
 
 def str_operand(kind, k):
-    if kind in ("lit", "par", "neg", "not"):
+    if kind in ("lit", "par", "neg", "not", "same", "rnd"):
         return ("str", ["U5", "L3", "T2"][k % 3])
     if kind in ("var", "arr"):
         return ("var", "A$" if k % 2 == 0 else "B$")
@@ -277,7 +282,7 @@ def cases(tier, seed):
     n = 0
     rng = random.Random(seed + 77)
     for fname in ("BUTTON", "JOYSTK", "POINT", "INKEY$"):
-        for ks in [[k] for k in KINDS] + [["tmp", "dev"], ["dev", "var"]]:
+        for ks in [[k] for k in KINDS] + [["tmp", "dev"], ["dev", "var"], ["same"], ["rnd"]]:
             for in_if in (False, True):
                 yield {"form": "FN:" + fname, "pat": 0, "extra": 0, "kinds": ks, "init": in_if, "in_if": in_if}
     for i, (kind_name, req, pats, extras) in enumerate(F):
@@ -287,10 +292,12 @@ def cases(tier, seed):
                 if tier == "quick":
                     kind_sets = [[KINDS[(n + j) % len(KINDS)] for j in range(7)], ["lit"], [rng.choice(KINDS) for _ in range(7)],
                                  ["tmp", "var", "dev", "expr", "arr", "par", "lit"], ["var"], ["tmp"], ["dev", "tmp"], ["neg"], ["not"],
-                                 ["var", "neg", "lit", "not"], ["lit", "lit", "lit", "neg", "not", "neg", "not"],
+                                 ["var", "neg", "lit", "not"], ["lit", "lit", "lit", "neg", "not", "neg", "not"], ["same"], ["rnd"],
+                                 ["same", "lit"], ["lit", "rnd"],
                                  [rng.choice(KINDS) for _ in range(7)]]
                 else:
-                    kind_sets = [[k] for k in KINDS] + [list(t) for t in itertools.islice(itertools.permutations(KINDS, 7), 0, 181440, 9000)] + \
+                    kind_sets = [[k] for k in KINDS] + [["same"], ["rnd"], ["same", "lit"], ["lit", "same"], ["rnd", "lit"], ["lit", "rnd"],
+                                                        ["same", "rnd"], ["lit", "lit", "same"], ["same", "var", "same"]] + [list(t) for t in itertools.islice(itertools.permutations(KINDS, 7), 0, 181440, 9000)] + \
                                 [[rng.choice(KINDS) for _ in range(7)] for _ in range(6)]
                 if tier == "thorough":
                     # one operand at a time takes each kind while the others stay literals (full product per position)
